@@ -90,6 +90,40 @@ def claimed_scheme(func, depth=0):
     return schemes, first_ok, bool(rz)
 
 
+def radio_request_settings_rules(ctx, rule='R4'):
+    """Shared with C01 (a frame reaches the Crazyflie of the link that sent it, whatever the other links on the dongle do)."""
+    m = ctx.model
+    # the dongle is shared between links: the radio thread programs it from the request itself before every transmission, so each
+    # setting that travels with a request (data rate, address, channel) has to reach the matching set_* call before the transmission
+    # - a scan that leaves the address of the previous user in place reports nothing (or somebody else's Crazyflie) at the asked address
+    srun = m.func(RD, '_SharedRadio.run')
+    gsr_ = cfg_of(srun)
+    setters = {'datarate': 'set_data_rate', 'address': 'set_address', 'channel': 'set_channel'}
+    nreq = 0
+    for un_ in [x for x in walk_own(srun.node) if isinstance(x, ast.Assign) and isinstance(x.targets[0], ast.Tuple) and norm(x.value).endswith('[2]')]:
+        fields = [norm(e) for e in un_.targets[0].elts]
+        branch = [i for i in ast.walk(srun.node) if isinstance(i, ast.If) and un_ in i.body]
+        if not branch:
+            continue
+        tx_ = [c for st_ in branch[0].body for c in ast.walk(st_) if isinstance(c, ast.Call) and isinstance(c.func, ast.Attribute) and norm(c.func.value) == 'self._radio' and
+               c.func.attr in ('send_packet', 'scan_selected', 'scan_channels')]
+        if len(tx_) != 1:
+            continue
+        nreq += 1
+        txn = gsr_.node_of(tx_[0])
+        missing = []
+        for f_ in fields:
+            if f_ in setters:
+                hits = [n for n, c in gsr_.find(lambda q, f_=f_: method_call(q, setters[f_]) and norm(q.func.value) == 'self._radio' and [norm(a_) for a_ in q.args] == [f_])
+                        if gsr_.dominates(n, txn) and any(c is x for st_ in branch[0].body for x in ast.walk(st_))]
+                if not hits:
+                    missing.append('%s -> %s' % (f_, setters[f_]))
+            elif not any(isinstance(x, ast.Name) and x.id == f_ and isinstance(x.ctx, ast.Load) for st_ in branch[0].body for x in ast.walk(st_)):
+                missing.append('%s is never used' % f_)
+        ctx.inst(rule, srun, 'request-settings-applied:' + tx_[0].func.attr, not missing, 'fields of the %s request %s; not applied before the transmission: %s' % (tx_[0].func.attr, fields, missing or 'none'))
+    ctx.need(nreq >= 3, '_SharedRadio.run: expected three transmitting request kinds, found %d' % nreq)
+
+
 def check(ctx):
     m = ctx.model
     # ---- R1 ---------------------------------------------------------------------------
@@ -391,35 +425,7 @@ def check(ctx):
     ctx.inst('R4', si, 'scan-address-conversion', len(addr_def) == 1 and format_template(addr_def[0]) == ('{:0>10X}', ['address']) and st.get('new_addr') == "struct.unpack('<BBBBB', binascii.unhexlify(addr))",
              'scan address uses the same 10-digit left padding and byte order as parse_uri')
 
-    # the dongle is shared between links: the radio thread programs it from the request itself before every transmission, so each
-    # setting that travels with a request (data rate, address, channel) has to reach the matching set_* call before the transmission
-    # - a scan that leaves the address of the previous user in place reports nothing (or somebody else's Crazyflie) at the asked address
-    srun = m.func(RD, '_SharedRadio.run')
-    gsr_ = cfg_of(srun)
-    setters = {'datarate': 'set_data_rate', 'address': 'set_address', 'channel': 'set_channel'}
-    nreq = 0
-    for un_ in [x for x in walk_own(srun.node) if isinstance(x, ast.Assign) and isinstance(x.targets[0], ast.Tuple) and norm(x.value).endswith('[2]')]:
-        fields = [norm(e) for e in un_.targets[0].elts]
-        branch = [i for i in ast.walk(srun.node) if isinstance(i, ast.If) and un_ in i.body]
-        if not branch:
-            continue
-        tx_ = [c for st_ in branch[0].body for c in ast.walk(st_) if isinstance(c, ast.Call) and isinstance(c.func, ast.Attribute) and norm(c.func.value) == 'self._radio' and
-               c.func.attr in ('send_packet', 'scan_selected', 'scan_channels')]
-        if len(tx_) != 1:
-            continue
-        nreq += 1
-        txn = gsr_.node_of(tx_[0])
-        missing = []
-        for f_ in fields:
-            if f_ in setters:
-                hits = [n for n, c in gsr_.find(lambda q, f_=f_: method_call(q, setters[f_]) and norm(q.func.value) == 'self._radio' and [norm(a_) for a_ in q.args] == [f_])
-                        if gsr_.dominates(n, txn) and any(c is x for st_ in branch[0].body for x in ast.walk(st_))]
-                if not hits:
-                    missing.append('%s -> %s' % (f_, setters[f_]))
-            elif not any(isinstance(x, ast.Name) and x.id == f_ and isinstance(x.ctx, ast.Load) for st_ in branch[0].body for x in ast.walk(st_)):
-                missing.append('%s is never used' % f_)
-        ctx.inst('R4', srun, 'request-settings-applied:' + tx_[0].func.attr, not missing, 'fields of the %s request %s; not applied before the transmission: %s' % (tx_[0].func.attr, fields, missing or 'none'))
-    ctx.need(nreq >= 3, '_SharedRadio.run: expected three transmitting request kinds, found %d' % nreq)
+    radio_request_settings_rules(ctx, 'R4')
     # the driver registry only grows while init_drivers runs: emptying it first leaves a window in which another thread finds no driver
     idr = m.func(CR, 'init_drivers')
     shrink = [norm(x)[:40] for x in walk_own(idr.node) if (isinstance(x, ast.Delete) and any('CLASSES' in norm(t) for t in x.targets)) or
